@@ -14,8 +14,8 @@ from fractions import Fraction as F
 from rv.ref.timing import RefBeats
 
 DATA = re.compile(rb"^#(\d{3})([0-9A-Za-z]{2}):(.*)$")
-VALID_DATA = re.compile(rb"^#\d{3}[0-9A-Z]{2}:([0-9A-Z]{2})+$")
-VALID_HEADER = re.compile(rb"^#[A-Z][A-Z0-9]*( .*)?$")
+VALID_DATA = re.compile(rb"^#\d{3}[0-9A-Za-z]{2}:([0-9A-Za-z]{2})+$")
+VALID_HEADER = re.compile(rb"^#[A-Za-z][A-Za-z0-9]*( .*)?$")
 
 LAYOUTS = {
     "BMS": {b"11": 0, b"12": 1, b"13": 2, b"14": 3, b"15": 4, b"16": 5, b"17": 6,
